@@ -22,7 +22,7 @@ PAIRS_T = [(a, b) for a in range(6) for b in range(6)]
 TUPLES_T = TUPLES_Q + [[1], [3], [4], [5], [1, 1], [2, 4], [3, 0], [5, 5], [2, 2, 2], [4, 1, 4], [3, 5, 1], [1, 1, 1, 1], [4, 5, 2, 0], [3, 3, 0, 4], [2, 0, 4, 1]]
 PAIR_OPS = ['p_default', 'p_ctor_fwd', 'p_ctor_clv', 'p_copy', 'p_move', 'p_conv', 'p_conv_tr', 'p_assign_copy', 'p_assign_move', 'p_assign_conv', 'p_swap',
             'p_get', 'p_sb', 'p_rel', 'p_make', 'p_tuple_like']
-TUPLE_OPS = ['t_default', 't_ctor_fwd', 't_ctor_clv', 't_copy', 't_move', 't_get', 't_eq', 't_swap', 't_apply', 't_mft', 't_cat', 't_tie', 't_make']
+TUPLE_OPS = ['t_default', 't_ctor_fwd', 't_ctor_clv', 't_copy', 't_move', 't_get', 't_eq', 't_swap', 't_apply', 't_mft', 't_cat', 't_tie', 't_make', 't_const_ref']
 
 
 def applicable(op, es):
@@ -35,6 +35,7 @@ def applicable(op, es):
     if op == 'p_assign_copy': return al({0, 1, 3})
     if op in ('p_assign_move', 'p_assign_conv', 'p_swap', 't_swap'): return al({0, 1, 2, 3, 4})
     if op == 't_cat': return al({0, 1, 3})
+    if op == 't_const_ref': return 4 in es
     return True
 
 
@@ -54,9 +55,12 @@ def queries(tier, prop='C20'):
     pairs, tuples = (PAIRS_Q, TUPLES_Q) if tier == 'quick' else (PAIRS_T, TUPLES_T)
     out = []
     base = dict(ub=ub, nofunc=ub, budget=120, unwind=48)
+    opn = open_findings()
     n = max(len(pairs), len(tuples))
     seen_tie = set()
     for i in range(n):
+        if ub and tier == 'quick' and i not in (1, 4, 5, 7):    # C02 (UB build): a subset of the configurations
+            continue
         p = pairs[i % len(pairs)]
         t = tuples[i % len(tuples)]
         cfg = {'PE1': p[0], 'PE2': p[1], 'TN': len(t)}
@@ -72,7 +76,10 @@ def queries(tier, prop='C20'):
                     if len(t) in seen_tie: continue
                     seen_tie.add(len(t))
                 if applicable(op, t):
-                    out.append(dict(entry='q_' + op, cfg=cfg, **base))
+                    q = dict(entry='q_' + op, cfg=cfg, **base)
+                    if op == 't_const_ref' and 'C20_tuple_const_get_reference_element' in opn:
+                        q['confirm_only'] = True     # the whole query lies inside the open known-finding region
+                    out.append(q)
         if i == 0:
             out.append(dict(entry='q_pf_rel', cfg=cfg, **base))
             out.append(dict(entry='q_tf_eq', cfg=cfg, **base))
